@@ -3,7 +3,7 @@ plus a fully random stream. Tokens are parsed identically by the Go harness and 
 
 BITS = [2, 4, 8, 16, 32, 64, 128, 256, 512, 1024, 2048]
 PREFS = ["password", "federated", "U2F", "SymantecVIP", "IPCertificate", "TOTP", "Okta2FA", "BootstrapOTP", "WebauthForCLI"]
-TLS = ["none", "nochain"] + ["%s:%s%s" % (k, s, d) for k in ["km", "foreign", "ipin", "ipout", "iperr", "ipnoauto"]
+TLS = ["none", "nochain"] + ["%s:%s%s" % (k, s, d) for k in ["km", "foreign", "ipin", "ipout", "iperr", "ipnoauto", "ipxff", "ipxri", "ipinhdr"]
                               for s in ["1", "2", "2x"] for d in ["", ":denied"]]
 BAD_COOKIES = ["cli:ok:ok:ok:past:future:%d:alice", "storage:ok:ok:ok:past:future:%d:alice",
                "auth:foreign:ok:ok:past:future:%d:alice", "auth:ok:bad:ok:past:future:%d:alice",
